@@ -186,13 +186,29 @@ func c19Champion(fitIdx int) (*genetics.Organism, int, int) {
 	return org, ph.Complexity(), sp.Age
 }
 
+// winner statistics recorded by the evaluator: the evaluator fills them, so a solved generation may record
+// 0 nodes (menu entry 5) or 0 genes (menu entry 3) - the aggregates still count that trial
+func c19WinNodes(m int) int {
+	if m == 5 {
+		return 0
+	}
+	return 2 + m
+}
+
+func c19WinGenes(m int) int {
+	if m == 3 {
+		return 0
+	}
+	return 3 + 2*m
+}
+
 func c19Trial(id int, gens []int) experiment.Trial {
 	t := experiment.Trial{Id: id}
 	for gi, m := range gens {
 		rec := c19GenMenu[m]
 		org, _, _ := c19Champion(rec.FitIdx)
 		g := experiment.Generation{Id: gi, TrialId: id, Solved: rec.Solved, Champion: org, Diversity: rec.Div,
-			WinnerNodes: 2 + m, WinnerGenes: 3 + 2*m, WinnerEvals: 10 * (gi + 1), Fitness: experiment.Floats{org.Fitness, 1, 0.5 * float64(m)},
+			WinnerNodes: c19WinNodes(m), WinnerGenes: c19WinGenes(m), WinnerEvals: 10 * (gi + 1), Fitness: experiment.Floats{org.Fitness, 1, 0.5 * float64(m)},
 			Age: experiment.Floats{float64(org.Species.Age), float64(2 + gi)}, Complexity: experiment.Floats{1, 4, float64(m), 7}}
 		t.Generations = append(t.Generations, g)
 	}
@@ -260,8 +276,8 @@ func c19EvalExperiment(trials [][]int) [][2]string {
 		if solved {
 			refSolved++
 			m := gens[firstSolved]
-			sn += float64(2 + m)
-			sg += float64(3 + 2*m)
+			sn += float64(c19WinNodes(m))
+			sg += float64(c19WinGenes(m))
 			se += float64(10 * (firstSolved + 1))
 			sd += float64(c19GenMenu[m].Div)
 		}
@@ -509,7 +525,7 @@ func c19EvalExperiment(trials [][]int) [][2]string {
 			t.Generations[gi].Executed = t0.Add(-time.Duration(gi) * time.Second) // recorded newest first
 		}
 		m := gens[solvedAt]
-		want := [4]int{2 + m, 3 + 2*m, 10 * (solvedAt + 1), c19GenMenu[m].Div}
+		want := [4]int{c19WinNodes(m), c19WinGenes(m), 10 * (solvedAt + 1), c19GenMenu[m].Div}
 		var got1, got2 [4]int
 		func() {
 			defer func() {
@@ -601,7 +617,7 @@ func c19EvalExperiment(trials [][]int) [][2]string {
 		}
 		for gi, m := range gens {
 			if c19GenMenu[m].Solved {
-				want := [4]int{2 + m, 3 + 2*m, 10 * (gi + 1), c19GenMenu[m].Div}
+				want := [4]int{c19WinNodes(m), c19WinGenes(m), 10 * (gi + 1), c19GenMenu[m].Div}
 				if gotW[ti] != want {
 					fails = append(fails, [2]string{"read-into-used/WinnerStatistics", fmt.Sprintf("trial %d: WinnerStatistics() = %v after another experiment was read into the (already queried) object; the generations just read give %v", ti, gotW[ti], want)})
 				}
